@@ -60,7 +60,7 @@ def gen_log(rng, n, tier):
                     qq = [None] + [[[next(it) for _ in range(ns[k])] for _ in range(ns[k - 1])] for k in range(1, T)]
                     out.append({'ns': list(ns), 'p': p, 'q': qq, 'log': True})
     for _ in range(n):
-        c = gen_model(rng, rng.randint(1, 8), 5, rng.choice([[0, 1, 2], [0, 1, 2, 3, 5, 8], [1, 1, 2], [0, 0.5, 0.25, 3], [-1, 0, 1, 2], [-2, -0.5, 0, 3, 0.25]]))     # costs = -log likelihood; negative = an unnormalised likelihood above 1
+        c = gen_model(rng, rng.randint(1, 8) if rng.random() < 0.85 else rng.randint(9, 24), 5, rng.choice([[0, 1, 2], [0, 1, 2, 3, 5, 8], [1, 1, 2], [0, 0.5, 0.25, 3], [-1, 0, 1, 2], [-2, -0.5, 0, 3, 0.25]]))     # costs = -log likelihood; negative = an unnormalised likelihood above 1
         c['log'] = True
         out.append(c)
     return out
@@ -70,7 +70,7 @@ def gen_lik(rng, n, tier):
     out = []
     for _ in range(n):
         vals = rng.choice([[0.5, 0.25, 0.125, 1.0], [0.1, 0.3, 0.9, 0.0], [1e-5, 0.2, 0.7, 3.5, 0.0]])   # unnormalised, zero likelihoods included
-        c = gen_model(rng, rng.randint(1, 7), 4, vals)
+        c = gen_model(rng, rng.randint(1, 7) if rng.random() < 0.85 else rng.randint(8, 22), 4, vals)
         c['log'] = False
         out.append(c)
     return out
@@ -156,7 +156,16 @@ def oracle(case, obs):
     s = decode_idx(case, obs)
     if s is None or len(s) != len(ns):
         return 'hmm_inference %r is not a sequence of candidate states (candidates of epoch k are %s)' % (obs['inf'], '100(k+1)+7l')
-    best = min(cost(c) for c in itertools.product(*[range(n) for n in ns]))
+    nseq = 1
+    for n in ns:
+        nseq *= n
+    if nseq <= 200000:
+        best = min(cost(c) for c in itertools.product(*[range(n) for n in ns]))      # every candidate sequence
+    else:                                               # long tracks: minimum over all sequences by prefix (Bellman's recurrence), an independent implementation
+        row = [cp(0, l) for l in range(ns[0])]
+        for k in range(1, len(ns)):
+            row = [min(row[m] + (cq(k, m, l) + cp(k, l)) for m in range(ns[k - 1])) for l in range(ns[k])]
+        best = min(row)
     if abs(cost(s) - best) > tol * max(1, abs(best)) or abs(obs['cost'] - best) > tol * max(1, abs(best)):
         return 'decoded sequence costs %r, recorded cost %r, optimum over all candidate sequences %r' % (cost(s), obs['cost'], best)
     return None
